@@ -16,6 +16,8 @@ type alphaOpts struct {
 	Restart    bool
 	ReadAll    bool
 	AllDeletes bool
+	Reversed   bool
+	Burst      bool
 }
 
 // enabledOps lists the alphabet in a state, simplest first.
@@ -25,6 +27,18 @@ func enabledOps(cfg Cfg, head, tail uint64, a alphaOpts) []Op {
 	for ln := uint64(1); ln <= uint64(a.MaxSlice); ln++ {
 		for lo := uint64(1); lo+ln-1 <= n; lo++ {
 			ops = append(ops, Op{K: "append", Lo: lo, Hi: lo + ln - 1})
+		}
+	}
+	if a.Reversed {
+		for ln := uint64(2); ln <= uint64(a.MaxSlice); ln++ {
+			for lo := uint64(1); lo+ln-1 <= n; lo++ {
+				ops = append(ops, Op{K: "revappend", Lo: lo, Hi: lo + ln - 1})
+			}
+		}
+	}
+	if a.Burst {
+		for lo := uint64(1); lo+2 <= n; lo++ {
+			ops = append(ops, Op{K: "burstrestart", Lo: lo, Hi: lo + 2})
 		}
 	}
 	if a.Gapped {
@@ -69,7 +83,7 @@ func histFeat(cfg Cfg, hist []Op) string {
 		kinds[o.K] = true
 	}
 	var ks []string
-	for _, k := range []string{"gapappend", "delete", "restart", "readall"} {
+	for _, k := range []string{"gapappend", "revappend", "burstrestart", "delete", "restart", "readall"} {
 		if kinds[k] {
 			ks = append(ks, k)
 		}
@@ -168,7 +182,7 @@ func TestC04(t *testing.T) {
 		return
 	}
 	depth := vk.Pick(run, 3, 4)
-	a := alphaOpts{MaxSlice: 3, Gapped: run.Thorough(), Deletes: true, Restart: true, ReadAll: true}
+	a := alphaOpts{MaxSlice: 3, Gapped: run.Thorough(), Reversed: true, Deletes: true, Restart: true, ReadAll: true}
 	dl := vk.NewDeadline(vk.Pick(run, 8*time.Minute, 100*time.Minute))
 	run.Set("depth", depth)
 	totalStates, totalTrans := 0, 0
